@@ -184,3 +184,126 @@ Proof.
   - intros m. unfold entry, dput. cbn. destruct (Z.eqb m 1); discriminate.
   - intros H. apply (H 1). reflexivity.
 Qed.
+
+(* ---------------------------------------------------------------- concurrent processes (C14) *)
+(* the names an action reads or writes *)
+Definition touches (a : daction) : list dname :=
+  match a with
+  | MkTemp t | Fill t _ _ | RmTemp t => [NTemp t]
+  | MoveAside n t | MoveIn t n => [NEntry n; NTemp t]
+  | RmFile n | RmDir n => [NEntry n]
+  end.
+
+Definition agree_on (S : dname -> Prop) (a b : dfs) : Prop := forall m, S m -> a m = b m.
+
+(* an action only depends on, and only changes, the names it touches *)
+Lemma dapply_local (S : dname -> Prop) a fs fs' :
+  (forall m, In m (touches a) -> S m) -> agree_on S fs fs' -> agree_on S (dapply fs a) (dapply fs' a).
+Proof.
+  intros Ht Ha m Hm. destruct a; cbn [dapply touches] in *;
+    repeat match goal with
+           | |- context [fs (?c ?x)] => rewrite (Ha (c x)) by (apply Ht; cbn; auto)
+           end;
+    repeat match goal with |- context [match ?x with _ => _ end] => destruct x end;
+    unfold dput; repeat match goal with |- context [dname_eqb ?a ?b] => destruct (dname_eqb a b) end;
+    auto.
+Qed.
+
+Lemma dapply_frame (S : dname -> Prop) a fs :
+  (forall m, In m (touches a) -> ~ S m) -> agree_on S (dapply fs a) fs.
+Proof.
+  intros Ht m Hm. destruct a; cbn [dapply touches] in *;
+    repeat match goal with |- context [match ?x with _ => _ end] => destruct x end;
+    unfold dput;
+    repeat match goal with
+           | |- context [dname_eqb ?a ?b] =>
+               let E := fresh "E" in destruct (dname_eqb a b) eqn:E;
+               [apply dname_eqb_eq in E; subst; exfalso; eapply Ht; [|exact Hm]; cbn; auto|]
+           end; reflexivity.
+Qed.
+
+(* all interleavings of two action sequences *)
+Inductive interleave : list daction -> list daction -> list daction -> Prop :=
+| il_nil : interleave [] [] []
+| il_left a l1 l2 l : interleave l1 l2 l -> interleave (a :: l1) l2 (a :: l)
+| il_right b l1 l2 l : interleave l1 l2 l -> interleave l1 (b :: l2) (b :: l).
+
+(* a process whose names nobody else touches ends as if it had run alone - whatever the schedule *)
+Theorem interleave_isolated (S : dname -> Prop) l1 l2 l :
+  interleave l1 l2 l ->
+  (forall a, In a l1 -> forall m, In m (touches a) -> S m) ->
+  (forall b, In b l2 -> forall m, In m (touches b) -> ~ S m) ->
+  forall fs fs', agree_on S fs fs' -> agree_on S (drun fs l) (drun fs' l1).
+Proof.
+  induction 1 as [|a l1 l2 l H IH|b l1 l2 l H IH]; intros H1 H2 fs fs' Ha.
+  - exact Ha.
+  - unfold drun. cbn [fold_left]. apply IH.
+    + intros a' Hin. apply H1. now right.
+    + exact H2.
+    + apply dapply_local; [apply H1; now left|exact Ha].
+  - unfold drun. cbn [fold_left]. apply IH.
+    + exact H1.
+    + intros b' Hin. apply H2. now right.
+    + intros m Hm. rewrite (dapply_frame S b fs (H2 b (or_introl eq_refl)) m Hm). now apply Ha.
+Qed.
+
+(* two writers storing under different names, with their own temporary names: under EVERY interleaving
+   of their file-system actions both entries end up complete and no other entry changes *)
+Theorem concurrent_stores_both_land fs n1 k1 v1 t1 u1 n2 k2 v2 t2 u2 l :
+  n1 <> n2 -> NoDup [t1; u1; t2; u2] -> fs (NTemp u1) = None -> fs (NTemp u2) = None ->
+  interleave (store n1 k1 v1 t1 u1) (store n2 k2 v2 t2 u2) l ->
+  entry (drun fs l) n1 = Some (Complete k1 v1) /\ entry (drun fs l) n2 = Some (Complete k2 v2) /\
+  forall n', n' <> n1 -> n' <> n2 -> entry (drun fs l) n' = entry fs n'.
+Proof.
+  intros Hn Hd Hu1 Hu2 Hi.
+  assert (Ht : t1 <> u1 /\ t1 <> t2 /\ t1 <> u2 /\ u1 <> t2 /\ u1 <> u2 /\ t2 <> u2).
+  { inversion Hd as [|x1 r1 N1 D1]; subst. inversion D1 as [|x2 r2 N2 D2]; subst. inversion D2 as [|x3 r3 N3 D3]; subst.
+    cbn in N1, N2, N3. repeat split; intro; subst; tauto. }
+  destruct Ht as (A & B & C & D & E & F).
+  set (S1 := fun m => m = NEntry n1 \/ m = NTemp t1 \/ m = NTemp u1).
+  set (S2 := fun m => m = NEntry n2 \/ m = NTemp t2 \/ m = NTemp u2).
+  assert (L1 : forall a, In a (store n1 k1 v1 t1 u1) -> forall m, In m (touches a) -> S1 m).
+  { intros a Ha m Hm. unfold store in Ha. cbn in Ha. unfold S1.
+    repeat (destruct Ha as [<-|Ha]; [cbn in Hm; intuition|]). destruct Ha. }
+  assert (L2 : forall a, In a (store n2 k2 v2 t2 u2) -> forall m, In m (touches a) -> S2 m).
+  { intros a Ha m Hm. unfold store in Ha. cbn in Ha. unfold S2.
+    repeat (destruct Ha as [<-|Ha]; [cbn in Hm; intuition|]). destruct Ha. }
+  assert (X12 : forall m, S1 m -> ~ S2 m).
+  { unfold S1, S2. intros m [->|[->| ->]] [H|[H|H]]; inversion H; congruence. }
+  assert (X21 : forall m, S2 m -> ~ S1 m) by (intros m H2 H1; exact (X12 m H1 H2)).
+  assert (I1 := interleave_isolated S1 _ _ _ Hi L1 (fun b Hb m Hm => X21 m (L2 b Hb m Hm)) fs fs (fun m _ => eq_refl)).
+  assert (Hi' : interleave (store n2 k2 v2 t2 u2) (store n1 k1 v1 t1 u1) l).
+  { clear - Hi. induction Hi; constructor; assumption. }
+  assert (I2 := interleave_isolated S2 _ _ _ Hi' L2 (fun b Hb m Hm => X12 m (L1 b Hb m Hm)) fs fs (fun m _ => eq_refl)).
+  destruct (store_completes fs n1 k1 v1 t1 u1 A Hu1) as [C1 _].
+  destruct (store_completes fs n2 k2 v2 t2 u2 F Hu2) as [C2 _].
+  split; [|split].
+  - unfold entry. rewrite (I1 (NEntry n1)) by (unfold S1; auto). exact C1.
+  - unfold entry. rewrite (I2 (NEntry n2)) by (unfold S2; auto). exact C2.
+  - intros n' N1 N2. unfold entry.
+    set (S3 := fun m => m = NEntry n').
+    assert (I3 := interleave_isolated S3 [] l l).
+    assert (Hl : interleave [] l l) by (clear; induction l; constructor; assumption).
+    specialize (I3 Hl (fun a Ha => match Ha with end)).
+    assert (F3 : forall b, In b l -> forall m, In m (touches b) -> ~ S3 m).
+    { intros b Hb m Hm Hs. unfold S3 in Hs. subst m.
+      assert (Hb' : In b (store n1 k1 v1 t1 u1) \/ In b (store n2 k2 v2 t2 u2)).
+      { clear - Hi Hb. induction Hi; cbn in *; intuition. }
+      destruct Hb' as [Hb'|Hb'].
+      - specialize (L1 b Hb' _ Hm). unfold S1 in L1. destruct L1 as [L|[L|L]]; inversion L; congruence.
+      - specialize (L2 b Hb' _ Hm). unfold S2 in L2. destruct L2 as [L|[L|L]]; inversion L; congruence. }
+    specialize (I3 F3 fs fs (fun m _ => eq_refl)). apply (I3 (NEntry n')). reflexivity.
+Qed.
+
+(* a reader (lookup, listing) scheduled at ANY point of a store of a new key finds every listed entry
+   complete, every other entry unchanged, and the new key absent or complete: this is store_crash read
+   as "state after a prefix".  What a reader can NOT rely on: an entry it has just listed may be gone
+   when it opens it (moved aside by a concurrent overwrite or delete) *)
+Theorem reader_list_then_lookup_race_refuted :
+  exists fs n t, readable fs /\ entry fs n <> None /\ entry (drun fs (firstn 1 (remove n t))) n = None.
+Proof.
+  exists (dput (fun _ => None) (NEntry 1) (Some (Complete 1 10))), 1, 100. split; [|split].
+  - intros m. unfold entry, dput. cbn. destruct (Z.eqb m 1); discriminate.
+  - cbn. discriminate.
+  - reflexivity.
+Qed.
